@@ -157,8 +157,10 @@ impl ChunkOut {
         if !self.shape.is_empty() {
             d.push("shape", J::s(&self.shape));
         }
+        // the key names the case, the kind of failure and (as a short hash) what was
+        // observed: a listed known finding only excuses the very same wrong answer
         self.failures.push(Failure {
-            key: case.key(check, kind),
+            key: format!("{}#{:06x}", case.key(check, kind), crate::util::fnv(observed) & 0xff_ffff),
             detail: d,
         });
     }
